@@ -73,7 +73,31 @@ def keep(prop, n, sid, caught, what):
               open(os.path.join(d, "meta.json"), "w"), indent=1)
     if os.path.exists(notes):
         shutil.copy(notes, os.path.join(d, "AGENT_NOTES.md"))
+def rerun(sid, tier="quick"):
+    """apply a KEPT seeded change to /repo, run its property's check, undo; True if a VIOLATION is printed"""
+    d = "/verif/seeded/%s" % sid
+    meta = json.load(open(os.path.join(d, "meta.json")))
+    prop = meta.get("caught_by", meta["property"])
+    rc, o = sh("git -C /repo apply --recount -C1 %s" % os.path.join(d, "patch.diff"))
+    if rc != 0:
+        print("%-50s APPLY FAILED (the patch no longer applies to the current tree): %s" % (sid, o.strip()[:120]))
+        return None
+    try:
+        rc, o = sh("./check %s --tier %s 2>&1 | tail -4" % (prop, tier), "/verif")
+    finally:
+        sh("git -C /repo checkout -- . && git -C /repo clean -fdq pkg")
+    hit = "VIOLATION" in o
+    print("%-50s %s  (%s)" % (sid, "caught" if hit else "MISSED", prop))
+    return hit
 if __name__ == "__main__":
+    if sys.argv[1] == "rerun":
+        sys.exit(0 if rerun(sys.argv[2]) else 1)
+    if sys.argv[1] == "rerun-all":
+        res = {}
+        for sid in sorted(os.listdir("/verif/seeded")):
+            res[sid] = rerun(sid)
+        print("caught %d, missed %d, not applicable %d" % (sum(1 for v in res.values() if v), sum(1 for v in res.values() if v is False), sum(1 for v in res.values() if v is None)))
+        sys.exit(0)
     cmd, prop, n = sys.argv[1], sys.argv[2], sys.argv[3]
     if cmd == "verify": sys.exit(0 if verify(prop, n) else 1)
     if cmd == "run": sys.exit(0 if run(prop, n, *(sys.argv[4:5])) else 1)
